@@ -216,6 +216,10 @@ pub(crate) struct EventsInner<const N: usize> {
     /// The first assigned event number is 1; `0` is reserved as the "no events seen yet"
     /// sentinel used by fresh subscriptions.
     next_event_number: EventNumber,
+    /// Set when `next_event_number` was just re-loaded from storage: the stored
+    /// epoch then covers nothing at or above it, so the next event must persist
+    /// a new epoch first - whatever the alignment of the loaded value.
+    epoch_uncovered: bool,
 }
 
 impl<const N: usize> EventsInner<N> {
@@ -225,6 +229,7 @@ impl<const N: usize> EventsInner<N> {
             buf_info: EventsBuf::new(),
             buf_critical: EventsBuf::new(),
             next_event_number: 1,
+            epoch_uncovered: false,
         }
     }
 
@@ -234,6 +239,7 @@ impl<const N: usize> EventsInner<N> {
             buf_info <- EventsBuf::init(),
             buf_critical <- EventsBuf::init(),
             next_event_number: 1,
+            epoch_uncovered: false,
         })
     }
 
@@ -242,6 +248,7 @@ impl<const N: usize> EventsInner<N> {
         self.buf_info.reset();
         self.buf_critical.reset();
         self.next_event_number = 1;
+        self.epoch_uncovered = false;
     }
 
     /// Remove persisted state from the given key-value store.
@@ -279,6 +286,7 @@ impl<const N: usize> EventsInner<N> {
     /// Restore events from previously persisted state.
     fn load(&mut self, data: &[u8]) -> Result<(), Error> {
         self.next_event_number = TLVElement::new(data).u64()?;
+        self.epoch_uncovered = true;
 
         Ok(())
     }
@@ -334,7 +342,10 @@ impl<const N: usize> EventsInner<N> {
     {
         let event_number = self.next_event_number;
 
-        if event_number == 1 || event_number.is_multiple_of(EVENT_NUMBER_EPOCH_SIZE) {
+        if event_number == 1
+            || self.epoch_uncovered
+            || event_number.is_multiple_of(EVENT_NUMBER_EPOCH_SIZE)
+        {
             // We're at an epoch start boundary. Therefore, we need to persist the new epoch to storage
             // so we don't lose it on reboot and end up reusing event numbers.
             persist.store_tlv(
@@ -345,6 +356,8 @@ impl<const N: usize> EventsInner<N> {
                     event_number.wrapping_add(EVENT_NUMBER_EPOCH_SIZE).max(1)
                 },
             )?;
+
+            self.epoch_uncovered = false;
         }
 
         self.next_event_number = event_number.wrapping_add(1).max(1);
